@@ -191,11 +191,9 @@ func (s *Img) Build() image.Image {
 			}
 		}
 		dst = image.NewPaletted(full, pal)
-	case "ycbcr444", "ycbcr420":
-		ratio := image.YCbCrSubsampleRatio444
-		if s.Kind == "ycbcr420" {
-			ratio = image.YCbCrSubsampleRatio420
-		}
+	case "ycbcr444", "ycbcr420", "ycbcr422", "ycbcr440", "ycbcr411", "ycbcr410":
+		ratio := map[string]image.YCbCrSubsampleRatio{"ycbcr444": image.YCbCrSubsampleRatio444, "ycbcr420": image.YCbCrSubsampleRatio420, "ycbcr422": image.YCbCrSubsampleRatio422,
+			"ycbcr440": image.YCbCrSubsampleRatio440, "ycbcr411": image.YCbCrSubsampleRatio411, "ycbcr410": image.YCbCrSubsampleRatio410}[s.Kind]
 		im := image.NewYCbCr(full, ratio)
 		for y := 0; y < s.H; y++ {
 			for x := 0; x < s.W; x++ {
@@ -248,6 +246,11 @@ func Truth(img image.Image) []color.NRGBA {
 }
 
 var allKinds = []string{"nrgba", "rgba", "nrgba64", "rgba64", "gray", "gray16", "paletted", "ycbcr444", "ycbcr420", "cmyk", "alpha", "generic"}
+
+// StdKinds are the standard-library image types other than NRGBA/RGBA (C19: each is "an image.Image
+// yielding colours"), including the chroma-subsampled layouts whose sample sharing is anchored to
+// absolute coordinates.
+var StdKinds = []string{"nrgba64", "rgba64", "gray", "gray16", "paletted", "cmyk", "alpha", "ycbcr444", "ycbcr420", "ycbcr420", "ycbcr422", "ycbcr440", "ycbcr411", "ycbcr410"}
 var allPlaces = []string{"tight", "sub", "minoff", "stride"}
 
 // ImgCfg parameterises DrawImg.
